@@ -47,7 +47,9 @@ META = dict(
          "inconclusive), so a length prefix taken from the wrong collection shows on the wire. Checked: sizing and writing pass make the same calls and "
          "reach the same total and per-push extents, every push field is the prescribed function of the bytes it covers, decode "
          "consumes exactly the buffer, the decoded value reports its version, decode tape = encode tape as multisets of (kind, "
-         "width, wire bytes), re-encode has equal length / cells / (no Go map iterated) bytes, second decode equals the first.",
+         "width, wire bytes), every scalar field the encoder carries in that version (measured: changing it alone changes the bytes) "
+         "comes back from decode with its value (so a field written from a sibling member shows), a valid value of every codec "
+         "round-trips on cold decompressor pools right after an undecodable payload, re-encode has equal length / cells / (no Go map iterated) bytes, second decode equals the first.",
     note="restricted form: TLA+ owns the codec machine, not the ~90 message layouts; the spec does not know the Kafka schema of "
          "a body, so a field decoded into the wrong member AND re-encoded from it is invisible. Program alphabets are finite "
          "(95 values over 23 primitives; length-4 exhaustive only over 25 of them). Values on which the first (sizing) pass "
@@ -62,7 +64,7 @@ META = dict(
 
 PROG_CLAUSES = ["encode_outcome", "sizing_pass_length", "writing_pass_offset", "passes_agree", "prescribed_bytes",
                 "length_field", "crc_field", "encoded_bytes", "decode_roundtrip", "decode_cursor"]
-BODY_CLAUSES = ["body_passes_agree", "body_push_fields", "body_decode_consumes", "body_version_recorded", "body_decode_tape",
+BODY_CLAUSES = ["body_passes_agree", "body_push_fields", "body_decode_consumes", "body_version_recorded", "body_fields_preserved", "body_decode_tape",
                 "body_reencode_length", "body_reencode_tape", "body_reencode_bytes", "body_second_decode"]
 
 INVARIANTS = ["TypeOK", "PrepStackOK", "RealInBuffer", "DecInBuffer", "AgreeAtEnd", "AgreeAtDepth0", "AgreeAtPop",
@@ -221,7 +223,7 @@ def run(ctx):
         for v in bv:
             e = ev.get((v["trace"], v["index"]), {})
             v["features"] = {k: e.get(k) for k in ("name", "kind", "ver", "fill", "shape", "reshape", "hasmap", "eerr", "derr", "rerr", "d2err",
-                                                   "eerrk", "derrk", "rerrk", "d2errk",
+                                                   "eerrk", "derrk", "rerrk", "d2errk", "fdiff",
                                                    "decver", "decdiff", "rediff", "buflen", "relen", "dend", "preplen", "reallen")}
             v["features"]["part"] = "body"
             viols.append(v)
@@ -244,6 +246,8 @@ def run(ctx):
         "body_runs": bsum["bodies"],
         "body_versions_covered": len(bsum["runs"]),
         "bodies_with_nested_collections": bsum["bodies_with_nested_collections"],
+        "fields_examined": bsum.get("fields_examined", 0),
+        "fields_carried_and_compared": bsum.get("fields_carried_and_compared", 0),
         "nested_collection_shapes_encoded": bsum["nested_shapes"],
         "bodies_skipped_first_encode_failed": sum(bsum["skipped_first_encode_failed"].values()),
         "model_runs": mstats,
